@@ -17,15 +17,32 @@ import vlib
 # family -> (variant, driver, driver args after <trace>, trace module, trace cfg)
 FAMILIES = {
     'engine': ('plain', 'engine_driver', [1, 12, 'mixed'], 'Engine_Trace.tla', 'Engine_Trace.cfg'),
-    'kill': ('plain', 'kill_driver', [1, 12, 'mixed'], 'KillAction_Trace.tla', 'KillAction_Trace.cfg'),
+    'kill': ('plain', 'kill_driver', [1, 12, 'c07'], 'KillAction_Trace.tla', 'KillAction_Trace.cfg'),
     'stats': ('plain', 'stats_driver', [1, 12], 'CgroupStats_Trace.tla', 'CgroupStats_Trace.cfg'),
     'det': ('plain', 'det_driver', [1, 20], 'Detectors_Trace.tla', 'Detectors_Trace.cfg'),
     'rank': ('plain', 'rank_driver', [1, 40], 'Ranking_Trace.tla', 'Ranking_Trace.cfg'),
-    'tick': ('asan', 'tick_driver', [1, 3], 'Tick_Trace.tla', 'Tick_Trace.cfg'),
+    'tick': ('asan', 'tick_driver', [1, 1, 40], 'Tick_Trace.tla', 'Tick_Trace.cfg'),
     'senpai': ('plain', 'senpai_driver', [1, 12], 'Senpai_Trace.tla', 'Senpai_Trace.cfg'),
     'log': ('tsan', 'log_driver', [1, 6], 'AsyncLog_Trace.tla', 'AsyncLog_Trace.cfg'),
     'statsvc': ('tsan', 'statsvc_driver', [1, 5, 'mix'], 'StatsService_Trace.tla', 'StatsService_Trace.cfg'),
     'dropin': ('tsan', 'dropin_driver', [1, 8], 'DropInWatcher_Trace.tla', 'DropInWatcher_Trace.cfg'),
+}
+# what the REAL code produced (as opposed to the generated scenario): event -> top-level fields whose corruption must
+# be noticed; '*' = every field.  Only these are corrupted, dropped or swapped.
+OUT = {
+    'det': {'DTick': ['ret']},
+    'rank': {'RankCase': ['first']},
+    'senpai': {'CtlWrite': ['p', 'file', 'v'], 'SwapWrite': ['*']},
+    'stats': {'Q': ['r'], 'QM': ['*']},
+    'engine': {'Run': ['serial', 'role', 'ctx', 'hasRs', 'applied'], 'Prerun': ['serial'], 'Init': ['serial', 'id', 'role', 'delay', 'cg'], 'Dtor': ['serial'],
+               'HookFire': ['*'], 'Stat': ['*']},
+    'kill': {'Kill': ['pid', 'sig'], 'KRet': ['ret'], 'KRun': ['deadline'], 'X': ['p', 'ns', 'v', 'kind'], 'HookFire': ['hook', 'pc'], 'HookPoll': ['res'],
+             'HookDestroy': ['inv'], 'ProcsOpen': ['p'], 'Kmsg': ['p', 'plugin', 'dry'], 'CtlWrite': ['p', 'file', 'val'], 'KStat': ['kills'], 'Reap': ['pid']},
+    'tick': {'Kill': ['pid', 'sig'], 'StatQuery': ['avail'], 'TickEnd': ['tick'], 'ProcsOpen': ['p']},
+    'log': {'Accept': ['thr', 'i', 'size', 'cur'], 'Drop': ['thr', 'i'], 'Swap': ['n', 'disc'], 'Sink': ['*'], 'DropsReported': ['*'], 'Stop': ['*']},
+    'statsvc': {'Ret': ['res'], 'ClientSaw': ['nReplies', 'wellFormed', 'err'], 'HStart': ['*'], 'HEnd': ['*'], 'DtorEnd': ['*'], 'InitResult': ['ok']},
+    'dropin': {'Sched': ['tag', 'add', 'v'], 'Apply': ['tag', 'res'], 'Active': ['ids'], 'Swap': ['n'], 'WEvent': ['c', 'n'], 'Settle': ['dir', 'present'],
+               'Reg': ['ok'], 'Dereg': ['*'], 'ScanDone': ['*']},
 }
 INFORMATIONAL = {'scn', 'seed', 'profile', 'mode', 'kind', 'mask', 'case', 'len', 'detail', 'why', 't'}
 
@@ -48,25 +65,27 @@ def set_at(obj, path, val):
     obj[path[-1]] = val
 
 
-def corrupt(lines, rng):
-    """one corruption; returns (new lines, description key)"""
-    body = [i for i, l in enumerate(lines) if not l.startswith('{"e":"SReset"') and not l.startswith('{"e":"Reset"')
-            and not l.startswith('{"e":"KReset"')]
+def corrupt(lines, rng, out):
+    """one corruption of something the real code produced; returns (new lines, description key)"""
+    body = [i for i, l in enumerate(lines) if json.loads(l)['e'] in out]
+    if not body:
+        return None, None
     kind = rng.choice(['field', 'field', 'field', 'drop', 'swap'])
     i = rng.choice(body)
     ev = json.loads(lines[i])
     if kind == 'drop':
         return lines[:i] + lines[i + 1:], 'drop:' + ev['e']
-    if kind == 'swap' and i + 1 < len(lines) and lines[i] != lines[i + 1]:
+    if kind == 'swap' and i + 1 < len(lines) and lines[i] != lines[i + 1] and 'Reset' not in lines[i + 1][:16]:
         return lines[:i] + [lines[i + 1], lines[i]] + lines[i + 2:], 'swap:%s/%s' % (ev['e'], json.loads(lines[i + 1])['e'])
-    cands = [(p, v) for p, v in leaves(ev) if p != ('e',)]
+    want = out[ev['e']]
+    cands = [(p, v) for p, v in leaves(ev) if p != ('e',) and ('*' in want or p[0] in want)]
     if not cands:
         return lines[:i] + lines[i + 1:], 'drop:' + ev['e']
     p, v = rng.choice(cands)
     if isinstance(v, bool):
         nv = not v
     elif isinstance(v, (int, float)):
-        nv = v + rng.choice([-1, 1])
+        nv = v + rng.choice([-1, 1]) if rng.random() < 0.5 else v * 2 + 3
     else:
         nv = str(v) + 'x' if rng.random() < 0.5 or not v else str(v)[:-1]
     set_at(ev, p, nv)
@@ -94,7 +113,9 @@ def main():
         stats = {}
         for t in range(trials):
             a, b = rng.choice(segs)
-            seg, what = corrupt(lines[a:b], rng)
+            seg, what = corrupt(lines[a:b], rng, OUT[fam])
+            if seg is None:
+                continue
             p = os.path.join(tmp, 'c%d.ndjson' % t)
             open(p, 'w').write('\n'.join(seg) + '\n')
             r = vlib.tlc_trace_once(mod, cfg, p, tmp, timeout=300)
